@@ -22,7 +22,7 @@ EXPLANATION = ('Contracts on the real TestChi2._nonzero_bins (with ignore_empty 
 ASSUMPTIONS = C05.ASSUMPTIONS[:2] + [
     'numpy.sum: uninterpreted SUM(elements, mask, n) that depends only on the multiset of selected elements (order independence assumed); count_nonzero = number of true entries',
     'scipy.stats.chi2.sf: uninterpreted upper-tail probability with sf(NaN, k) = NaN (instantiated at ground terms)',
-    'Dataset.__sub__ through its contract (C08); rank-1 arrays stand for every shape; 1 and 2 compared datasets',
+    'Dataset.__sub__ through its contract (value v1 - v2, error sqrt(e1^2 + e2^2) for all extended reals: verified here, unit dataset_sub); rank-1 arrays stand for every shape; 1 and 2 compared datasets',
     'A-log: LOGGER calls dropped',
 ]
 TRUSTED = C05.TRUSTED
@@ -140,7 +140,7 @@ def lemmas():
 
 
 def units(tier):
-    return ['chi2_test', 'nonzero_bins', 'pvalue', 'oracles', 'bool', 'lemmas', 'native']
+    return ['dataset_sub', 'chi2_test', 'nonzero_bins', 'pvalue', 'oracles', 'bool', 'lemmas', 'native']
 
 
 def _replay_native(name, inp):
@@ -156,6 +156,9 @@ def run_unit(unit, tier, seed, known):
     import warnings
     logging.disable(logging.CRITICAL)
     warnings.filterwarnings('ignore')
+    if unit == 'dataset_sub':
+        from . import C08
+        return {'functions': [C08.verify_sub_full(tier, ID, _replay_native)]}
     if unit == 'native':
         return {'bounded': [snat.chi2_sweep(tier, seed)]}
     if unit == 'lemmas':
